@@ -469,6 +469,9 @@ func evalNewObject(vm *r.VM, node *syntax.ObjNewExpr) (r.Element, error) {
 }
 
 func evalImportStmt(vm *r.VM, node *syntax.ImportStmt) error {
+	// an error raised while importing is reported at the line of this statement
+	vm.SetCurrentLine(node.GetCurrentLine())
+
 	extLibName := node.ImportName.GetLiteral()
 
 	var extModule *r.Module
